@@ -316,6 +316,10 @@ func lexObjectReference(l *lexer) lexFn {
 	if r == scanner.EOF {
 		return l.errorf("object reference not closed: eof")
 	}
+	if strings.ContainsAny(l.current(), "\n\r") {
+		// the closing bracket found belongs to a later line
+		return l.errorf("object reference not closed: eol")
+	}
 	l.backup()
 	l.emit(tObjectRef)
 	l.skip() // skip closing bracket
@@ -532,6 +536,10 @@ func lexGohtDynamicText(l *lexer) lexFn {
 	r := continueToMatchingBrace(l, '}')
 	if r == scanner.EOF {
 		return l.errorf("dynamic text value was not closed: eof")
+	}
+	if strings.ContainsAny(l.current(), "\n\r") {
+		// the closing brace found belongs to a later line
+		return l.errorf("dynamic text value was not closed: eol")
 	}
 	l.backup()
 	l.emit(tDynamicText)
@@ -760,6 +768,10 @@ func lexFilterDynamicText(textType tokenType, next lexFn) lexFn {
 		r := continueToMatchingBrace(l, '}')
 		if r == scanner.EOF {
 			return l.errorf("dynamic text value was not closed: eof")
+		}
+		if strings.ContainsAny(l.current(), "\n\r") {
+			// the closing brace found belongs to a later line
+			return l.errorf("dynamic text value was not closed: eol")
 		}
 		l.backup()
 		l.emit(tDynamicText)
